@@ -117,6 +117,9 @@ def run(pid, tier):
     try:
         ctx.config = "ndebug"
         ck.set_inventory_guard(ctx.fb(), ctx.cg())
+        # rules that judge every function on its own terms (universal who-may / per-function disciplines) or that follow calls
+        # into helpers themselves are exempt from the guard: {rule id: reason}
+        ck.follows_helpers = dict(getattr(mod, "FOLLOWS_HELPERS", {}))
     except Exception as ex:   # the guard only ever turns violations into refusals; without facts there is nothing to guard
         ck.unknown, ck.tainted = set(), set()
     ck.assumptions = list(TRUSTED_BASE) + list(getattr(mod, "ASSUMPTIONS", []))
